@@ -58,7 +58,8 @@ def c16a(tree, ob):
             if pm('cbor2.loads(msg_obj.encode(tag=False))', mdec) is None and pm('cbor2.loads(msg_obj.encode())', mdec) is None:
                 continue
             rdm = fv.reaching_defs('msg_obj', x)
-            if len(rdm) == 1 and rdm[0][0] is stmt:
+            if any(rd[0] is stmt for rd in rdm) and all(isinstance(rd[1], ast.Call) and call_name(rd[1]) in ENC for rd in rdm):
+                # this construction reaches the store (alone, or as one of the encrypting layouts that share it)
                 good = x
         if good is None:
             ob.violate(SEC, fv.qual, '{}(...) without tgt_blk.setfieldval(\'btsd\', <ciphertext>)'.format(kind), 'the ciphertext of the {} is not written into the target block'.format(kind), c)
